@@ -39,7 +39,8 @@ def targets():
            so.Socket._send_ping, so.Socket.handle_get_request,
            so.Socket.handle_post_request, bs.BaseServer._get_socket,
            sv.Server.disconnect, sv.Server._handle_connect,
-           sv.Server.send_packet,
+           sv.Server.send_packet, sv.Server.handle_request,
+           sv.Server._service_task,
            cl.Client.disconnect, cl.Client._receive_packet,
            cl.Client._send_packet, cl.Client._read_loop_polling,
            cl.Client._read_loop_websocket, cl.Client._write_loop]
